@@ -12,10 +12,8 @@ Tier == IF "TIER" \in DOMAIN IOEnv THEN IOEnv.TIER ELSE "quick"
 Cont == {0, 1, 63, 64, 127, 128, 191, 192, 254, 255}
 Alpha3 == IF Tier = "thorough" THEN {0, 1, 63, 64, 127, 128, 255} ELSE {0, 127, 128, 255}
 
-\* all strings of length <= 2, plus every first byte with boundary continuations up to 8 bytes
-Short == {<< >>} \cup {<< x >> : x \in 0..255} \cup {<< x, y >> : x \in 0..255, y \in 0..255}
-Long(n) == {<< x >> \o t : x \in 0..255, t \in [1..(n - 1) -> Alpha3]}
-Structured == UNION {Long(n) : n \in 3..(IF Tier = "thorough" THEN 5 ELSE 4)}
+\* all strings of length <= 2, plus every first byte with boundary continuations up to 4 (thorough: 5) bytes: built per
+\* first byte in ByteCases (zero-arity definitions are evaluated by TLC at startup, on one thread)
 \* full-width strings: first byte classes x continuation pattern (all equal or one hot)
 Wide == { [i \in 1..n |-> IF i = 1 THEN x ELSE IF i = h THEN y ELSE z] :
             n \in 5..9, x \in {0,1,2,3,4,7,8,15,16,31,32,63,64,127,128,129,191,192,193,223,224,
@@ -26,16 +24,26 @@ Wide == { [i \in 1..n |-> IF i = 1 THEN x ELSE IF i = h THEN y ELSE z] :
 Bnd == UNION { { ZAdd(Z(s, NPow2(7 * k - 1)), ZI(d)) : s \in BOOLEAN, d \in -2..2 } : k \in 1..8 }
 Vals == Bnd \cup {ZI(i) : i \in -70..70}
 
-Cases == {[kind |-> "bytes", b |-> b] : b \in Short \cup Structured \cup Wide}
-           \cup {[kind |-> "val", v |-> v] : v \in Vals}
+\* TLC generates initial states (and checks their invariant) on ONE thread, so the universe hangs below 257 seed
+\* states that the workers expand in parallel: seed x < 256 = the byte strings whose first byte is x; seed 256 = the
+\* empty string and the values
+ByteCases(x) ==
+  {[kind |-> "bytes", b |-> b] :
+     b \in {<< x >>} \cup {<< x, y >> : y \in 0..255}
+           \cup UNION {{<< x >> \o t : t \in [1..(n - 1) -> Alpha3]} : n \in 3..(IF Tier = "thorough" THEN 5 ELSE 4)}
+           \cup {w \in Wide : w[1] = x}}
+CasesOf(k) ==
+  IF k = 256 THEN {[kind |-> "bytes", b |-> << >>]} \cup {[kind |-> "val", v |-> v] : v \in Vals}
+  ELSE ByteCases(k)
 
-Init == c \in Cases
-Next == UNCHANGED c
+Init == c \in {[kind |-> "seed", k |-> k] : k \in 0..256}
+Next == c.kind = "seed" /\ c' \in CasesOf(c.k)
 
 Emit(r) == PrintT(<< "CASE", ToJson(r) >>)
 
 Laws ==
-  IF c.kind = "bytes"
+  IF c.kind = "seed" THEN TRUE
+  ELSE IF c.kind = "bytes"
   THEN /\ BytesLaws(c.b)
        /\ LET dl == Decode(c.b, FALSE)  ds == Decode(c.b, TRUE)
           IN  Emit([kind |-> "bytes", b |-> c.b, ok |-> dl.ok, neg |-> dl.val[1], mag |-> dl.val[2],
